@@ -221,6 +221,15 @@ macro_rules! port_float {
                 assert!(<$native as From<$P>>::from(<$P as Bounded>::min_value()).to_bits() == <$native>::MIN.to_bits(), "min_value");
                 assert!(<$native as From<$P>>::from(<$P as Bounded>::max_value()).to_bits() == <$native>::MAX.to_bits(), "max_value");
                 assert!(<$native as From<$P>>::from(-p).to_bits() == (-x).to_bits(), "Neg");
+                // conversions from the integers containers use (every u64 / i64 / usize value)
+                let u: u64 = kani::any();
+                let si: i64 = kani::any();
+                let z: usize = kani::any();
+                assert!(<$P>::from_u64(u).map(|v| <$native as From<$P>>::from(v).to_bits()) == <$native>::from_u64(u).map(|v| v.to_bits()), "from_u64 rounds like the native type");
+                assert!(<$P>::from_i64(si).map(|v| <$native as From<$P>>::from(v).to_bits()) == <$native>::from_i64(si).map(|v| v.to_bits()), "from_i64 rounds like the native type");
+                assert!(<$P>::from_usize(z).map(|v| <$native as From<$P>>::from(v).to_bits()) == <$native>::from_usize(z).map(|v| v.to_bits()), "from_usize rounds like the native type");
+                assert!(<$P as NumCast>::from(u).map(|v| <$native as From<$P>>::from(v).to_bits()) == <$native as NumCast>::from(u).map(|v| v.to_bits()), "NumCast::from(u64) rounds like the native type");
+                assert!(<$P as NumCast>::from(si).map(|v| <$native as From<$P>>::from(v).to_bits()) == <$native as NumCast>::from(si).map(|v| v.to_bits()), "NumCast::from(i64) rounds like the native type");
                 kani::cover!(x.is_nan() && (xb & 1) == 1, "w:nan-payload");
                 kani::cover!(p == q && x != 0.0, "w:equal");
             }
